@@ -451,6 +451,7 @@ func Run(t *testing.T, opts Options, setup func(s *Sched), finish func(s *Sched,
 		s.loop(horizon)
 		s.solo = true
 		s.running = nil
+		s.collectPanics()
 		if finish != nil {
 			finish(s, &s.trace)
 		}
@@ -617,13 +618,18 @@ func (t *Thread) Where() string { return t.where() }
 // WaitingFor returns what a parked thread waits for ("" if it is simply enabled).
 func (t *Thread) WaitingFor() string { return t.waitFor }
 
-func (s *Sched) teardown() {
-	// collect panics, then release every parked thread with Goexit so that nothing is leaked
+// collectPanics records the panics recovered in the threads (before the harness evaluates its oracle).
+func (s *Sched) collectPanics() {
+	s.trace.Panics = nil
 	for _, t := range s.Threads() {
 		if t.Panic != nil {
 			s.trace.Panics = append(s.trace.Panics, fmt.Sprintf("%s: %v\n%s", t.Name, t.Panic, trimStack(t.PanicStack)))
 		}
 	}
+}
+
+func (s *Sched) teardown() {
+	// release every parked thread with Goexit so that nothing is leaked
 	s.aborted = true
 	for _, t := range s.Threads() {
 		if t.state == stParked {
